@@ -39,7 +39,10 @@ type Faults struct {
 	// ForgeTwin: forged answers may also be VALID twins (another timestamp, hash recomputed, true
 	// roots): a block that passes every check and may be stored; the honest chain does not contain it
 	ForgeTwin bool `json:"forge_twin,omitempty"`
-	Budget    int  `json:"budget"` // at most this many faulty answers per (kind, height); then honest
+	// CorruptEachKind: the first answers for every height go through ALL corruption kinds of corrupt()
+	// one after the other (kinds the block has nothing for are skipped), then the source is honest
+	CorruptEachKind bool `json:"corrupt_each_kind,omitempty"`
+	Budget          int  `json:"budget"` // at most this many faulty answers per (kind, height); then honest
 	// Rules script particular interleavings (directed scenarios): applied before the random faults.
 	Rules []Rule `json:"rules,omitempty"`
 }
@@ -55,6 +58,10 @@ type Rule struct {
 	Action      string `json:"action"`
 	UntilStores int    `json:"until_stores,omitempty"`
 	Times       int    `json:"times,omitempty"` // apply at most this many times (0 = always)
+	// Matching ("latest-fabricated"): the next request for block Height is answered with that block
+	// carrying the fabricated hash in its Hash field (header lie and block lie agree with each other;
+	// the block cannot pass verification)
+	Matching bool `json:"matching_block,omitempty"`
 	// AnyEmpty: instead of Height, the rule applies (once per height) to every requested block whose
 	// honest state diff is EMPTY
 	AnyEmpty bool `json:"any_empty_diff_block,omitempty"`
@@ -98,6 +105,15 @@ type source struct {
 	servedHeights map[uint64]bool
 	inflight      int // BlockByNumber calls currently being answered
 	maxInflight   int
+	// watchers of the Persisted channels (see handedOut); byBlock (feeder mode only): the real data
+	// source makes its own Persisted channel, the answer is found again by the identity of its Block
+	status   *statusTracker
+	done     chan struct{}
+	watchers sync.WaitGroup
+	byBlock  map[*core.Block]int
+	nextKind map[uint64]int        // CorruptEachKind: next corruption kind per height
+	lastKind map[uint64]int        // CorruptEachKind: index (in handed) of the last corrupted answer per height
+	pairHash map[uint64]*felt.Felt // a fabricated latest header (n, H) to be backed by a block answer carrying H
 }
 
 type handedOut struct {
@@ -105,6 +121,13 @@ type handedOut struct {
 	num   uint64
 	valid bool
 	fault string
+	// the delivery's outcome (what storeTask / verifierTask sent on Persisted), observed by a watcher
+	// goroutine: servedIdx = log position of the answer, outIdx = length of the log when the outcome was
+	// seen (the decision was taken between the two)
+	servedIdx int
+	outIdx    int
+	got       bool
+	err       error
 }
 
 var errNotFound = errors.New("scripted source: block not found")
@@ -189,6 +212,10 @@ func (s *source) BlockByNumber(ctx context.Context, n uint64) (junosync.Committe
 	if err := ctx.Err(); err != nil { // like an HTTP client: a cancelled context fails the request
 		return junosync.CommittedBlock{}, err
 	}
+	if s.status != nil {
+		s.status.fetchBegin(ctx)
+		defer s.status.fetchEnd(ctx)
+	}
 	s.mu.Lock()
 	s.inflight++
 	if s.inflight > s.maxInflight {
@@ -243,7 +270,7 @@ func (s *source) BlockByNumber(ctx context.Context, n uint64) (junosync.Committe
 				fault = "hash-altered"
 				ruleHash = true
 				s.hit("rule:hash-altered")
-			case "forged", "forged-root":
+			case "forged", "forged-root", "forged-version":
 				fault = ru.Action
 				s.hit("rule:" + ru.Action)
 			case "fail":
@@ -255,6 +282,55 @@ func (s *source) BlockByNumber(ctx context.Context, n uint64) (junosync.Committe
 			case "hold":
 				holdUntil = ru.UntilStores
 				s.hit("rule:hold")
+			}
+		}
+	}
+	var pairH *felt.Felt
+	if h, ok := s.pairHash[n]; ok && fault == "" {
+		delete(s.pairHash, n)
+		pairH = h
+		fault = "hash-altered"
+	}
+	eachKind := -1
+	var eachB *lib.Bundle
+	var eachHow string
+	if s.faults.CorruptEachKind && fault == "" {
+		// only when the node waits for exactly this block (its answer will be verified next), and the
+		// next kind only after the previous one was seen to be REFUSED (not cancelled on the way)
+		waiting := false
+		s.rec.mu.Lock()
+		waiting = uint64(len(s.rec.chain)) == n
+		s.rec.mu.Unlock()
+		k := s.nextKind[n]
+		if last, ok := s.lastKind[n]; ok && k > 0 {
+			h := s.handed[last]
+			refused := h.got && h.err != nil && !errors.Is(h.err, context.Canceled) && !errors.Is(h.err, context.DeadlineExceeded)
+			if !refused {
+				k-- // serve that kind again
+			}
+		}
+		if !waiting && k < nCorruptKinds {
+			// a block further ahead is not served yet (a parallel fetcher asks for it): it would be stored
+			// right after its predecessor without ever being asked for again
+			s.hit("each-kind:not-served-ahead-of-the-head")
+			s.mu.Unlock()
+			s.rec.add(entry{Kind: eServeErr, Req: n, Epoch: epoch, Fault: "each-kind-not-yet"})
+			_ = sleepCtx(ctx, s.notFound)
+			return junosync.CommittedBlock{}, errInjected
+		}
+		if waiting {
+			for ; k < nCorruptKinds; k++ {
+				if c, how := corruptKind(chain[n], k, r, s.net); c != nil {
+					eachKind, eachB, eachHow = k, c, how
+					break
+				}
+			}
+			if eachKind >= 0 {
+				s.nextKind[n] = eachKind + 1
+				fault = "corrupt"
+			} else {
+				s.nextKind[n] = nCorruptKinds
+				delete(s.lastKind, n)
 			}
 		}
 	}
@@ -287,17 +363,35 @@ func (s *source) BlockByNumber(ctx context.Context, n uint64) (junosync.Committe
 		return junosync.CommittedBlock{}, errInjected
 	case "corrupt":
 		var how string
-		b, how = corrupt(chain[n], r)
+		if eachKind >= 0 {
+			b, how = eachB, eachHow
+			s.hit("each-kind:" + how)
+		} else {
+			b, how = corrupt(chain[n], r, s.net)
+		}
+		if how == "class-definition" && s.byBlock != nil {
+			// feeder mode: class definitions are fetched one by one from the adapter, the bundle's map
+			// never reaches the node — this answer is the honest block
+			b, how = chain[n].Clone(), ""
+			fault = ""
+			s.hit("fetch:ok")
+			break
+		}
 		s.hit("corrupt:" + how)
 		valid = false
 		fault = "corrupt:" + how
 	case "hash-altered":
 		var how string
-		b, how = alterHash(chain[n], r, ruleHash)
+		if pairH != nil {
+			b, how = chain[n].Clone(), "hash(matching the fabricated latest header)"
+			b.Block.Hash, b.SU.BlockHash = pairH, pairH
+		} else {
+			b, how = alterHash(chain[n], r, ruleHash)
+		}
 		s.hit("lie:" + how)
 		valid = false
 		fault = "corrupt:" + how
-	case "forged", "forged-root":
+	case "forged", "forged-root", "forged-version":
 		// a twin (valid, may be stored) only as the successor the node is waiting for: as an answer to
 		// revertTask it would be an undetectable lie about a block the node holds
 		twinOK := s.faults.ForgeTwin && fault == "forged"
@@ -306,7 +400,11 @@ func (s *source) BlockByNumber(ctx context.Context, n uint64) (junosync.Committe
 		}
 		var how string
 		var err error
-		b, how, err = forge(chain[n], r, s.net, fault == "forged-root", twinOK)
+		mode := ""
+		if fault != "forged" {
+			mode = fault[len("forged-"):]
+		}
+		b, how, err = forge(chain[n], r, s.net, mode, twinOK)
 		if err == nil && s.sane != nil {
 			if e := s.sane(b); e != nil {
 				err = errors.New("SanityCheckNewHeight refuses the forged block (" + how + "): " + e.Error())
@@ -342,7 +440,14 @@ func (s *source) BlockByNumber(ctx context.Context, n uint64) (junosync.Committe
 		s.hit("fetch:ok")
 	}
 	ch := make(chan error, 1)
-	s.handed = append(s.handed, handedOut{ch, b.Block.Number, valid, fault})
+	s.handed = append(s.handed, handedOut{ch: ch, num: b.Block.Number, valid: valid, fault: fault, servedIdx: -1, outIdx: -1})
+	hi := len(s.handed) - 1
+	if eachKind >= 0 {
+		s.lastKind[n] = hi
+	}
+	if s.byBlock != nil {
+		s.byBlock[b.Block] = hi
+	}
 	s.servedHeights[n] = true
 	s.advance()
 	s.mu.Unlock()
@@ -350,13 +455,16 @@ func (s *source) BlockByNumber(ctx context.Context, n uint64) (junosync.Committe
 	// reaches the synchroniser later
 	ent := entry{Kind: eServed, Req: n, Num: b.Block.Number, Hash: *b.Block.Hash, Parent: *b.Block.ParentHash,
 		Valid: valid, Fault: fault, Epoch: epoch, Orig: *orig.Block.Hash, RootSame: true, DiffSame: true,
-		Sane: valid || strings.HasPrefix(fault, "forged:")}
+		Sane: valid || strings.HasPrefix(fault, "forged:"), Ver: b.Block.ProtocolVersion}
 	if !valid || fault != "" {
 		ent.RootSame = b.Block.GlobalStateRoot.Equal(orig.Block.GlobalStateRoot) && b.SU.NewRoot.Equal(orig.SU.NewRoot) &&
 			b.SU.OldRoot.Equal(orig.SU.OldRoot)
 		ent.DiffSame = reflect.DeepEqual(b.SU.StateDiff, orig.SU.StateDiff) && len(b.Classes) == len(orig.Classes)
 	}
-	s.rec.add(ent)
+	at := s.rec.addIdx(ent)
+	s.mu.Lock()
+	s.handed[hi].servedIdx = at
+	s.mu.Unlock()
 	if err := sleepCtx(ctx, delay); err != nil {
 		// computed but never handed over: the caller sees a failed request
 		s.rec.add(entry{Kind: eServeErr, Req: n, Epoch: epoch, Fault: "cancelled-in-flight"})
@@ -379,7 +487,48 @@ func (s *source) BlockByNumber(ctx context.Context, n uint64) (junosync.Committe
 			return junosync.CommittedBlock{}, ctx.Err()
 		}
 	}
+	if s.byBlock == nil {
+		s.watch(hi, ch)
+	}
 	return junosync.CommittedBlock{Block: b.Block, StateUpdate: b.SU, NewClasses: b.Classes, Persisted: ch}, nil
+}
+
+// watch notes WHEN the outcome of a delivery arrives on its Persisted channel (and puts it back for
+// the accounting at the end of the run).
+func (s *source) watch(hi int, ch chan error) {
+	if s.done == nil {
+		return
+	}
+	s.watchers.Add(1)
+	go func() {
+		defer s.watchers.Done()
+		select {
+		case e := <-ch:
+			s.rec.mu.Lock()
+			at := len(s.rec.log)
+			s.rec.mu.Unlock()
+			s.mu.Lock()
+			s.handed[hi].outIdx, s.handed[hi].err, s.handed[hi].got = at, e, true
+			s.mu.Unlock()
+			ch <- e
+		case <-s.done:
+		}
+	}()
+}
+
+// adopt (feeder mode): the real data source wrapped the block served as answer hi into a
+// CommittedBlock with its own Persisted channel.
+func (s *source) adopt(blk *core.Block, persisted chan error) {
+	s.mu.Lock()
+	hi, ok := s.byBlock[blk]
+	if ok {
+		delete(s.byBlock, blk)
+		s.handed[hi].ch = persisted
+	}
+	s.mu.Unlock()
+	if ok {
+		s.watch(hi, persisted)
+	}
 }
 
 func (s *source) BlockHeaderLatest(ctx context.Context) (*core.Header, error) {
@@ -407,6 +556,7 @@ func (s *source) BlockHeaderLatest(ctx context.Context) (*core.Header, error) {
 		}
 	}
 	lieHeight := -1
+	pairRule := false
 	for ri := range s.faults.Rules {
 		ru := &s.faults.Rules[ri]
 		if ru.Action == "latest-fabricated" && ru.Epoch == epoch && (ru.Times == 0 || ru.used < ru.Times) && len(chain) > 0 {
@@ -414,6 +564,7 @@ func (s *source) BlockHeaderLatest(ctx context.Context) (*core.Header, error) {
 			if h, ok := s.rec.head(); ok && int(h.num) == len(chain)-1 {
 				ru.used++
 				fault, lieHeight = "fabricated", int(ru.Height)
+				pairRule = ru.Matching
 				s.hit("rule:latest-fabricated")
 			}
 		}
@@ -448,6 +599,11 @@ func (s *source) BlockHeaderLatest(ctx context.Context) (*core.Header, error) {
 		}
 		h = lib.DeepCopy(chain[n].Block.Header).(*core.Header)
 		h.Hash = new(felt.Felt).SetBytes(r.Bytes(31))
+		if pairRule || (lieHeight < 0 && s.faults.LieHashPct > 0 && r.Bool()) {
+			// the lie will be backed by the block answer: BlockByNumber(n) carries this hash too
+			s.pairHash[uint64(n)] = h.Hash
+			s.hit("lie:latest-fabricated-to-be-backed-by-a-matching-block")
+		}
 	case "prev-epoch":
 		old := s.chains[r.Intn(epoch)]
 		if len(old) > 0 {
@@ -466,6 +622,9 @@ func (s *source) BlockHeaderLatest(ctx context.Context) (*core.Header, error) {
 	if err := sleepCtx(ctx, delay); err != nil {
 		s.rec.add(entry{Kind: eLatestErr, Epoch: epoch, Fault: "cancelled-in-flight"})
 		return nil, err
+	}
+	if s.status != nil {
+		s.status.polled(ctx, h)
 	}
 	return h, nil
 }
@@ -529,17 +688,28 @@ func alterHash(b *lib.Bundle, r *lib.RNG, keepNumber bool) (*lib.Bundle, string)
 //	state-diff  another storage value in the diff, the honest block's root claim kept
 //	old-root    another StateUpdate.OldRoot (the hash does not commit to it)
 //	twin        another timestamp: a fully VALID block (true roots) that is not the source's block
-func forge(b *lib.Bundle, r *lib.RNG, net *networks.Network, rootOnly, twinOK bool) (*lib.Bundle, string, error) {
+//	unsupported-version  a protocol version above the latest supported one (true roots, right number and
+//	            parent): passes SanityCheckNewHeight; only CheckBlockVersion inside Store's
+//	            verifyBlockSuccession refuses it
+//
+// mode: "" = any kind, "root" = state-root, "version" = unsupported-version.
+func forge(b *lib.Bundle, r *lib.RNG, net *networks.Network, mode string, twinOK bool) (*lib.Bundle, string, error) {
 	c := b.Clone()
 	one := lib.F(1)
 	kind := "state-root"
-	if !rootOnly {
-		switch k := r.Intn(10); {
+	switch mode {
+	case "root":
+	case "version":
+		kind = "unsupported-version"
+	default:
+		switch k := r.Intn(12); {
 		case k < 5:
 		case k < 7 && diffSize(c.SU.StateDiff) > 0 && len(c.SU.StateDiff.StorageDiffs) > 0:
 			kind = "state-diff"
 		case k < 8:
 			kind = "old-root"
+		case k < 10:
+			kind = "unsupported-version"
 		case twinOK:
 			kind = "twin"
 		}
@@ -570,6 +740,8 @@ func forge(b *lib.Bundle, r *lib.RNG, net *networks.Network, rootOnly, twinOK bo
 		return c, kind, nil
 	case "twin":
 		c.Block.Timestamp++
+	case "unsupported-version":
+		c.Block.ProtocolVersion = lib.Pick(r, unsupportedVersions)
 	}
 	h1, _, err := core.BlockHash(c.Block, c.SU.StateDiff, net, nil, core.DeprecatedTrieBackend)
 	if err != nil {
@@ -590,13 +762,34 @@ func forge(b *lib.Bundle, r *lib.RNG, net *networks.Network, rootOnly, twinOK bo
 	return c, kind, nil
 }
 
-// corrupt returns a copy of b with one committed field changed while the block hash is kept.
-// Every variant must be rejected by SanityCheckNewHeight.
-func corrupt(b *lib.Bundle, r *lib.RNG) (*lib.Bundle, string) {
+// unsupportedVersions straddle core.LatestVer (0.14.1; CheckBlockVersion compares major and minor only)
+var unsupportedVersions = []string{"0.15.0", "0.15", "0.99.7", "1.0.0", "1.14.1", "2.0.0", "0.18446744073709551615.0", "00.015.1"}
+
+// corrupt returns a copy of b with one thing changed so that EXACTLY ONE of the checks of
+// SanityCheckNewHeight fails (block hash / state-update hash agreement, header root / state-update root
+// agreement, class hashes, transaction/receipt pairing, transaction hashes, the block hash and the
+// commitments it covers). The block hash is kept, except for "root-split", where it is recomputed over
+// the changed header. Every variant must be rejected by SanityCheckNewHeight.
+const nCorruptKinds = 20
+
+func corrupt(b *lib.Bundle, r *lib.RNG, net *networks.Network) (*lib.Bundle, string) {
+	for try := 0; try < 12; try++ {
+		if c, how := corruptKind(b, r.Intn(nCorruptKinds), r, net); c != nil {
+			return c, how
+		}
+	}
+	c := b.Clone()
+	c.Block.Timestamp++
+	return c, "timestamp"
+}
+
+// corruptKind applies corruption number kind to a copy of b; nil if this block has nothing of that kind
+// to corrupt (no transaction, no event, no Sierra class, ...).
+func corruptKind(b *lib.Bundle, kind int, r *lib.RNG, net *networks.Network) (*lib.Bundle, string) {
 	c := b.Clone()
 	one := lib.F(1)
-	for try := 0; try < 8; try++ {
-		switch r.Intn(7) {
+	{
+		switch kind {
 		case 0:
 			c.Block.Timestamp++
 			return c, "timestamp"
@@ -622,7 +815,7 @@ func corrupt(b *lib.Bundle, r *lib.RNG) (*lib.Bundle, string) {
 			return c, "state-diff"
 		case 4:
 			if len(c.Block.Receipts) == 0 {
-				continue
+				return nil, ""
 			}
 			rc := c.Block.Receipts[r.Intn(len(c.Block.Receipts))]
 			rc.Fee = new(felt.Felt).Add(rc.Fee, one)
@@ -634,8 +827,187 @@ func corrupt(b *lib.Bundle, r *lib.RNG) (*lib.Bundle, string) {
 		case 6:
 			c.Block.ParentHash = new(felt.Felt).Add(c.Block.ParentHash, one)
 			return c, "parent-hash"
+		case 7:
+			// (the block hash commits to the L2 gas price only from protocol version 0.13.4 on: for an
+			// older block that field is not covered by anything and is left alone)
+			sub := 4
+			if c.Block.ProtocolVersion < "0.13.4" {
+				sub = 3
+			}
+			switch r.Intn(sub) {
+			case 0:
+				c.Block.L1GasPriceETH = new(felt.Felt).Add(c.Block.L1GasPriceETH, one)
+			case 1:
+				c.Block.L1GasPriceSTRK = new(felt.Felt).Add(c.Block.L1GasPriceSTRK, one)
+			case 2:
+				c.Block.L1DataGasPrice = &core.GasPrice{PriceInWei: new(felt.Felt).Add(c.Block.L1DataGasPrice.PriceInWei, one), PriceInFri: c.Block.L1DataGasPrice.PriceInFri}
+			default:
+				c.Block.L2GasPrice = &core.GasPrice{PriceInWei: c.Block.L2GasPrice.PriceInWei, PriceInFri: new(felt.Felt).Add(c.Block.L2GasPrice.PriceInFri, one)}
+			}
+			return c, "gas-price"
+		case 8:
+			c.Block.L1DAMode = 1 - c.Block.L1DAMode
+			return c, "l1-da-mode"
+		case 9:
+			// a field of a transaction changed, its recorded hash kept: only VerifyTransactions
+			// (recomputation of the transaction hash) can see it
+			if how := tamperTx(c.Block.Transactions, r, int(c.Block.Number%4)); how != "" {
+				return c, "tx-field(" + how + ")"
+			}
+		case 10:
+			var evs []*core.Event
+			for _, rc := range c.Block.Receipts {
+				evs = append(evs, rc.Events...)
+			}
+			if len(evs) == 0 {
+				return nil, ""
+			}
+			ev := evs[r.Intn(len(evs))]
+			if len(ev.Data) > 0 && r.Bool() {
+				ev.Data[0] = *new(felt.Felt).Add(&ev.Data[0], one)
+			} else if len(ev.Keys) > 0 && r.Bool() {
+				ev.Keys[0] = *new(felt.Felt).Add(&ev.Keys[0], one)
+			} else {
+				ev.From = new(felt.Felt).Add(ev.From, one)
+			}
+			return c, "event"
+		case 11:
+			if len(c.Block.Receipts) == 0 {
+				return nil, ""
+			}
+			rc := c.Block.Receipts[r.Intn(len(c.Block.Receipts))]
+			if rc.Reverted {
+				rc.RevertReason += "!"
+			} else {
+				rc.Reverted, rc.RevertReason = true, "reverted: tampered"
+			}
+			return c, "receipt-revert"
+		case 12:
+			for _, i := range perm(r, len(c.Block.Transactions)) {
+				if sig := c.Block.Transactions[i].Signature(); len(sig) > 0 {
+					sig[0] = *new(felt.Felt).Add(&sig[0], one)
+					return c, "tx-signature"
+				}
+			}
+		case 13:
+			// the definition of a declared Sierra class changed, its class hash (the map key) kept: only
+			// VerifyClassHashes can see it (Cairo-0 class hashes are not verified by juno, by design)
+			for h, cl := range c.Classes {
+				if sc, ok := cl.(*core.SierraClass); ok && len(sc.EntryPoints.External) > 0 {
+					cp := lib.DeepCopy(sc).(*core.SierraClass)
+					cp.EntryPoints.External[0].Selector = new(felt.Felt).Add(cp.EntryPoints.External[0].Selector, one)
+					c.Classes[h] = cp
+					return c, "class-definition"
+				}
+			}
+		case 14:
+			// the HEADER claims another state root than the state update (which keeps the true one); the
+			// block hash is recomputed over the changed header, so the hash check passes: only the
+			// comparison of the two roots in SanityCheckNewHeight can see it
+			nr := new(felt.Felt).Add(c.Block.GlobalStateRoot, one)
+			c.Block.GlobalStateRoot = nr
+			h, _, err := core.BlockHash(c.Block, c.SU.StateDiff, net, nil, core.DeprecatedTrieBackend)
+			if err != nil || h.Equal(b.Block.Hash) {
+				return nil, ""
+			}
+			c.Block.Hash = &h
+			c.SU.BlockHash = &h
+			return c, "root-split(hash recomputed)"
+		case 15:
+			if r.Bool() {
+				c.Block.TransactionCount++
+			} else {
+				c.Block.EventCount++
+			}
+			return c, "tx-or-event-count"
+		case 16:
+			// another SUPPORTED protocol version (the hash commits to the version string)
+			vs := []string{"0.13.2", "0.13.3", "0.13.4", "0.13.5", "0.14.0", "0.14.1", "0.14.2"}
+			if v := vs[r.Intn(len(vs))]; v != c.Block.ProtocolVersion {
+				c.Block.ProtocolVersion = v
+				return c, "protocol-version(supported)"
+			}
+		case 17:
+			if n := len(c.Block.Transactions); n > 0 {
+				c.Block.Transactions = c.Block.Transactions[:n-1]
+				c.Block.Receipts = c.Block.Receipts[:n-1]
+				return c, "drop-last-tx"
+			}
+		case 18:
+			if n := len(c.Block.Transactions); n >= 2 {
+				c.Block.Transactions[0], c.Block.Transactions[n-1] = c.Block.Transactions[n-1], c.Block.Transactions[0]
+				c.Block.Receipts[0], c.Block.Receipts[n-1] = c.Block.Receipts[n-1], c.Block.Receipts[0]
+				return c, "swap-txs"
+			}
+		case 19:
+			if n := len(c.Block.Receipts); n > 0 {
+				rc := c.Block.Receipts[r.Intn(n)]
+				rc.TransactionHash = new(felt.Felt).Add(rc.TransactionHash, one)
+				return c, "receipt-tx-hash"
+			}
 		}
 	}
-	c.Block.Timestamp++
-	return c, "timestamp"
+	return nil, ""
+}
+
+// tamperTx changes one hashed field of one transaction (not a legacy Deploy: its hash is taken as
+// given) and keeps the recorded transaction hash. prefer: the kind of transaction to pick if the block
+// has one (0 invoke, 1 declare, 2 deploy-account, 3 l1-handler), so that a chain goes through all kinds.
+func tamperTx(txs []core.Transaction, r *lib.RNG, prefer int) string {
+	one := lib.F(1)
+	kindOf := func(tx core.Transaction) int {
+		switch tx.(type) {
+		case *core.InvokeTransaction:
+			return 0
+		case *core.DeclareTransaction:
+			return 1
+		case *core.DeployAccountTransaction:
+			return 2
+		case *core.L1HandlerTransaction:
+			return 3
+		}
+		return -1
+	}
+	order := perm(r, len(txs))
+	for pass := 0; pass < 2; pass++ {
+		for _, i := range order {
+			if k := kindOf(txs[i]); k < 0 || (pass == 0 && k != prefer) {
+				continue
+			}
+			switch t := txs[i].(type) {
+			case *core.InvokeTransaction:
+				if len(t.CallData) > 0 && r.Bool() {
+					t.CallData[0] = *new(felt.Felt).Add(&t.CallData[0], one)
+				} else if t.Nonce != nil {
+					t.Nonce = new(felt.Felt).Add(t.Nonce, one)
+				} else {
+					t.EntryPointSelector = new(felt.Felt).Add(t.EntryPointSelector, one)
+				}
+				return "invoke"
+			case *core.DeclareTransaction:
+				t.ClassHash = new(felt.Felt).Add(t.ClassHash, one)
+				return "declare"
+			case *core.DeployAccountTransaction:
+				t.ContractAddressSalt = new(felt.Felt).Add(t.ContractAddressSalt, one)
+				return "deploy-account"
+			case *core.L1HandlerTransaction:
+				t.Nonce = new(felt.Felt).Add(t.Nonce, one)
+				return "l1-handler"
+			}
+		}
+	}
+	return ""
+}
+
+// perm: a random permutation of 0..n-1
+func perm(r *lib.RNG, n int) []int {
+	p := make([]int, n)
+	for i := range p {
+		p[i] = i
+	}
+	for i := n - 1; i > 0; i-- {
+		j := r.Intn(i + 1)
+		p[i], p[j] = p[j], p[i]
+	}
+	return p
 }
